@@ -9,6 +9,7 @@ import (
 	"context"
 	"fmt"
 	"os"
+	"runtime/coverage"
 	"runtime/pprof"
 	"sort"
 	"strings"
@@ -846,4 +847,8 @@ func main() {
 	}
 	runProbes(c)
 	c.Finish("From KV Require Import C06.Model C06.Spec C06.Check.", "case", "check_all", shard)
+	if d := os.Getenv("GOCOVERDIR"); d != "" { // coverage-instrumented build: flush explicitly
+		if err := coverage.WriteMetaDir(d); err != nil { fmt.Fprintln(os.Stderr, "coverage:", err) }
+		if err := coverage.WriteCountersDir(d); err != nil { fmt.Fprintln(os.Stderr, "coverage:", err) }
+	}
 }
